@@ -72,38 +72,75 @@ HARNESSES += [
 ]
 
 # ---- merge_from over whole (tiny) databases ----------------------------------------------------------------------
-_LOAD_LATEST = '_ZN19InterrogateDatabase11load_latestEv'
+_LOAD_LATEST = '_ZN19InterrogateDatabase11load_latestEv'       # no file is requested: must not be reached (asserting auto stub)
+# every vector merge_from appends to is reserved by the harness: the reallocating slow path of push_back must not be reached
+# (asserting auto stub); left in, symbolic execution enters it under the symbolic "is global" conditions and allocates a
+# symbolic number of bytes
 _REALLOC_INT = '_ZNSt6vectorIiSaIiEE17_M_realloc_insertIJRKiEEEvN9__gnu_cxx17__normal_iteratorIPiS1_EEDpOT_'
 _FAT_NODES = ['--max-field-sensitivity-array-size', '512']     # records live in std::map nodes (408-byte membuf), see cat/c20.py
 _MF_TUS = [_DB + 'interrogateDatabase.cxx', _DB + 'interrogateType.cxx', _DB + 'indexRemapper.cxx', _DB + 'interrogateComponent.cxx',
            _DB + 'interrogateElement.cxx', _DB + 'interrogateFunctionWrapper.cxx']
+import itertools
+_ORDER_NAMES = {n: [''.join(q) for q in itertools.permutations('xyzw'[:n])] for n in (2, 3, 4)}    # lexicographic, like PERM in the harness
 
-def _tmp(id, b, o):
-    return dict(id=id, property='C13', src='c13_merge_from.cxx', entry='harness_c13_merge_from', tus=_MF_TUS,
-         cut=[_LOAD_LATEST, _REALLOC_INT], cbmc_flags=_FAT_NODES, tuflags=_ASSERTS, hflags=_ASSERTS,
-         desc='merge_from', domain='', oracle='',
-         bounds={'quick': {'defs': {'WITH_B': b, 'ORDERS': o}, 'unwind': 10, 'unwindset': {'ll_memmove.0': 40, 'll_memcpy.0': 40}, 'cap': 600}})
+
+def _mf(nfiles, order, tiers):
+    name = _ORDER_NAMES[nfiles][order]
+    b = {'defs': {'NFILES': nfiles, 'ORDER': order}, 'unwind': 10, 'unwindset': {'ll_memmove.0': 40, 'll_memcpy.0': 40},
+         'cap': 600 if nfiles == 2 else 2400}
+    return dict(id='c13_merge_from_' + name, property='C13', src='c13_merge_from.cxx', entry='harness_c13_merge_from', tus=_MF_TUS,
+                cut=[_LOAD_LATEST, _REALLOC_INT], cbmc_flags=_FAT_NODES, tuflags=_ASSERTS, hflags=_ASSERTS,
+                desc='real merge_from: %d tiny database files loaded into an empty database in the order %s' % (nfiles, ','.join(name.upper())),
+                domain='files ' + ','.join('XYZW'[:nfiles]) + ' share the types S and B (S derives from B) by true name; per file and shared '
+                       'type SYMBOLIC: global or not, fully defined or forward declared (%d bits); concrete structure: X has a global element of '
+                       'type S, Y the pointer type P->S and a function wrapper S w(P)%s; every file owns a disjoint index range; the load order '
+                       'is this entry\'s permutation (one entry per permutation)' % (4 * nfiles, ', Z a global element of type B' if nfiles >= 3 else ''),
+                oracle='one type per true name, at the index of the file loaded first; fully defined iff some file defines it and then carrying a '
+                       'defining file\'s definition; global iff some file says so; get_num_global_types/get_global_type list exactly the global '
+                       'types once each, get_all_type every type once; element type, wrapped type, return type, parameter type and the derivation '
+                       'inside the merged record point at the surviving indices; push_back never reallocates, load_latest not reached',
+                bounds={t: b for t in tiers}, tiers=tiers)
+
+
+# quick: both orders of two files and two of the six orders of three files; thorough: every permutation
+HARNESSES += [_mf(2, 0, ('quick', 'thorough')), _mf(2, 1, ('quick', 'thorough'))] + \
+             [_mf(3, o, ('quick', 'thorough') if _ORDER_NAMES[3][o] in ('yzx', 'zxy') else ('thorough',)) for o in range(6)] + \
+             [_mf(4, o, ('thorough',)) for o in range(24)]
+
+# ---- by-name lookups interleaved with loads ------------------------------------------------------------------------
+# clear() of a by-name cache: recursive node deletion (at most 2 nodes per cache here)
 _ERASE = '_ZNSt8_Rb_treeINSt7__cxx1112basic_stringIcSt11char_traitsIcESaIcEEESt4pairIKS5_iESt10_Select1stIS8_ESt4lessIS5_ESaIS8_EE8_M_eraseEPSt13_Rb_tree_nodeIS8_E'
-def _lk(id, kind, early, symask, unwind=10):
-    return dict(id=id, property='C13', src='c13_lookups.cxx', entry='harness_c13_lookups', tus=_MF_TUS[1:] + [_DB + 'interrogateManifest.cxx'],
-         cut=[_LOAD_LATEST, _REALLOC_INT, _ERASE], cbmc_flags=_FAT_NODES, tuflags=_ASSERTS, hflags=_ASSERTS + ['-DBUILDING_INTERROGATEDB'],
-         desc='lookups', domain='', oracle='',
-         bounds={'quick': {'defs': {'KIND': kind, 'EARLY': early, 'SYMASK': symask}, 'unwind': unwind, 'unwindset': {'ll_memmove.0': 40, 'll_memcpy.0': 40}, 'cap': 600}})
-HARNESSES += [_lk('c13_l1', 2, 0, 0), _lk('c13_l2', 2, 0, 1), _lk('c13_l3', 2, 1, 1)]
-HARNESSES += [_tmp('c13_t1', 0, 3), _tmp('c13_t2', 1, 1), _tmp('c13_t3', 1, 2)]
-HARNESSES += [
-    dict(id='c13_merge_from', property='C13', src='c13_merge_from.cxx', entry='harness_c13_merge_from', tus=_MF_TUS,
-         cut=[_LOAD_LATEST, _REALLOC_INT], cbmc_flags=_FAT_NODES, tuflags=_ASSERTS, hflags=_ASSERTS,
-         desc='merge_from', domain='', oracle='',
-         bounds={'quick': {'defs': {'WITH_B': 0, 'ORDERS': 1}, 'unwind': 10, 'unwindset': {'ll_memmove.0': 40, 'll_memcpy.0': 40}, 'cap': 600}}),
-]
+_KIND_NAMES = {0: 'nothing new', 1: 'a new type', 2: 'a manifest', 3: 'a new type and a manifest', 4: 'an element', 5: 'a new type and an element',
+               6: 'a manifest and an element', 7: 'a new type, a manifest and an element'}
+
+
+def _lk(kind, tiers):
+    b = {'defs': {'KIND': kind, 'EARLY': 1}, 'unwind': 10, 'unwindset': {'ll_memmove.0': 40, 'll_memcpy.0': 40, _ERASE: 5}, 'cap': 600}
+    return dict(id='c13_lookups_k%d' % kind, property='C13', src='c13_lookups.cxx', entry='harness_c13_lookups',
+                # interrogateDatabase.cxx is compiled as part of the harness unit (see c13_lookups.cxx: pointer to member function)
+                tus=_MF_TUS[1:] + [_DB + 'interrogateManifest.cxx'], hflags=_ASSERTS + ['-DBUILDING_INTERROGATEDB'], tuflags=_ASSERTS,
+                cut=[_LOAD_LATEST, _REALLOC_INT], cbmc_flags=_FAT_NODES,
+                desc='all six by-name lookups before any load, after loading file A and after loading file B, where B brings %s '
+                     '(besides re-declaring A\'s type)' % _KIND_NAMES[kind],
+                domain='CONCRETE history and names (weak): lookups on the empty database, merge_from(A = type T, manifest m, element e), lookups, '
+                       'merge_from(B = forward declaration of T + this entry\'s records), lookups; every round asks all six tables for A\'s name, '
+                       'B\'s name and an unknown name; symbolic only: whether B\'s new type / element is global',
+                oracle='every answer at every point == index of the record of that name in the files loaded so far, else 0; B\'s records are '
+                       'reachable by index, refer to the surviving T and are enumerated (global lists iff global)',
+                bounds={t: b for t in tiers}, tiers=tiers)
+
+
+HARNESSES += [_lk(k, ('quick', 'thorough')) for k in (1, 2, 4, 7)] + [_lk(k, ('thorough',)) for k in (0, 3, 5, 6)]
 
 PROPERTY_INFO = {'C13': {'level': 'model_checking',
          'explanation': 'bounded symbolic execution (CBMC) of the real merge / module-registration code of libinterrogatedb lowered from /repo',
-         'outside': 'reading the databases from real files (C12 covers the file format; load_latest/read are not executed here); '
-                    'InterrogateDatabase::merge_from over whole databases and its order independence (copies of 400-byte records through std::map '
-                    'nodes: no verdict within 10 min / 14 GB even for 1+2 types with a concrete sharing pattern; merge_with, its kernel, is decided); '
-                    'more than NMOD modules',
+         'outside': 'reading the databases from real files (C12 covers the file format; load_latest/read are not executed here: the harnesses '
+                    'hand every file a fresh index range and call merge_from, which is what read() does after parsing); databases larger than '
+                    'the bounds: merge_from is decided for 2, 3 and 4 files in every load order (quick: 2 files in both orders, 3 files in 2 of the 6) with two shared '
+                    'types whose global / fully-defined flags are symbolic per file, concrete record structure and one-character names; '
+                    'by-name lookups interleaved with loads are decided on a CONCRETE history only (lookups - load A - lookups - load B - lookups, '
+                    'all six tables, concrete names; a symbolic choice of the tables consulted or symbolic query names exceeded 15 GB), one '
+                    'catalogue entry per kind of content of the late file; more than NMOD modules',
          'assumptions': []}}
 
 NOT_APPLICABLE = {}
